@@ -22,7 +22,7 @@ EXTRACT = "coq/C03/Extract_C03.v"
 DRIVER = "props/C03/driver.ml"
 PROGS = {"c03sim": ["props/C03/unit.cpp"]}
 
-MODELLED = ("restraint", "histogram", "extlag", "abmd", "abf", "meta", "eabf", "histrestraint")
+MODELLED = ("restraint", "histogram", "extlag", "abmd", "abf", "meta", "eabf", "histrestraint", "alb")
 
 # (family, cases quick, cases thorough, history length quick, thorough)
 PLAN = [
@@ -36,9 +36,9 @@ PLAN = [
     ("histrestraint", 3, 30, 10, 30),
     ("multi", 4, 40, 10, 30),
     ("runave", 2, 10, 10, 20),
-    ("alb", 2, 10, 10, 20),
+    ("alb", 6, 40, 14, 30),
     ("opes", 4, 30, 12, 24),
-    ("pabf", 2, 16, 10, 24),
+    ("pabf", 4, 24, 10, 24),
     ("mts", 6, 60, 12, 30),
     ("ti", 4, 40, 12, 30),
 ]
@@ -50,25 +50,6 @@ def signature(c, f):
     kind:family+tags (collapse == "all") or kind:family+tags:when (collapse == "obs")."""
     st = list(c.get("sigtags") or [])
     col = c.get("collapse")
-    if c["fam"] == "opes" and f["sig"].startswith("run-boundary:"):
-        # no state file involved: the restart schedule does not matter
-        return "run-boundary:opes:" + f["sig"].split(":")[-1]
-    if c["fam"] == "opes":
-        # the OPES state is the snapshot taken at the last step on the restart schedule: only stops on that
-        # schedule (and after the first step of the run) can resume exactly
-        K, rf = f.get("K"), c.get("restartfreq", 1)
-        if K is None or K == 0 or K % rf != 0:
-            st.append("off-schedule")
-            col = "all"
-        else:
-            col = "all" if st else None
-    if c["fam"] == "mts" and c.get("mts_extended") and f.get("K") is not None:
-        # an extended-Lagrangian variable with timeStepFactor n in a job that starts between two multiples of n:
-        # a state written before the variable was first computed holds an extended coordinate that was never set
-        sf, it0 = c["sleep_factor"], c.get("it0", 0)
-        if all((it0 + j) % sf != 0 for j in range(f["K"] + 1)):
-            st.append("extended+saved-before-first-update")
-            col = "all"
     fam = c["fam"] + ("".join("+" + t for t in st))
     parts = f["sig"].split(":")          # engine signatures are <kind>:<fam>:<rest...>
     if col == "all":
@@ -99,10 +80,10 @@ def gen_cases(r, quick, only=None):
                 c["auto_Ks"] = sorted(r2.sample(range(1, T), ne))
             c["boundary_Ks"] = sorted(r2.sample(range(T), ne))
             c["buffer_Ks"] = [(K, r2.choice(c["fmts"])) for K in r2.sample(c["Ks"], 2)]
+            c["reject_Ks"] = sorted(r2.sample(c["Ks"], 2))
             # a job resumed twice; not for the objects whose single resume is a recorded finding
             ch = set()
-            if not (fam in ("alb", "opes", "pabf", "runave") or c.get("sigtags") or c.get("collapse")
-                    or (fam == "mts" and c.get("it0", 0) % c["sleep_factor"] != 0)):
+            if not (fam in ("runave",) or c.get("sigtags") or c.get("collapse")):
                 for _ in range(2):
                     K1 = r2.randrange(0, T - 1)
                     ch.add((K1, r2.randrange(K1 + 1, T) if r2.random() < 0.8 else K1, r2.choice(c["fmts"])))
